@@ -52,7 +52,7 @@ type harness struct {
 }
 
 func (h *harness) logf(format string, args ...any) {
-	h.trace = append(h.trace, fmt.Sprintf(format, args...))
+	h.trace = append(h.trace, strings.ReplaceAll(fmt.Sprintf(format, args...), "\x00", `\x00`))
 }
 
 func (h *harness) failf(format string, args ...any) {
@@ -128,6 +128,11 @@ func (h *harness) audit(why string, viaIndexes bool) {
 		if viaIndexes {
 			for _, ix := range t.def.idx {
 				h.runQuery("audit-index("+why+")", nil, h.committed, &query{table: n, useIdx: ix.Cols})
+			}
+			// columns added by transactions that did not commit must not exist
+			res, err := sqlgen.QueryEngine(h.db.Eng, nil, "SELECT * FROM "+n, nil)
+			if err != nil || len(res.Cols) != len(t.def.cols) {
+				h.failf("audit(%s): SELECT * FROM %s: err=%v, columns %v, reference %v", why, n, err, res, t.def.colNames())
 			}
 		}
 	}
@@ -621,7 +626,7 @@ func TestTxPrograms(t *testing.T) {
 	if vk.Thorough() {
 		maxSteps = 40
 	}
-	vk.Check(t, 480, 30000, func(rt *rapid.T, c *vk.Case) {
+	vk.Check(t, 480, 24000, func(rt *rapid.T, c *vk.Case) {
 		dir := vk.Dir()
 		defer os.RemoveAll(dir)
 		db, err := sqlgen.Open(dir, sqlgen.DBOpts{})
